@@ -306,7 +306,7 @@ class ProvXMLSerializer(Serializer):
         """
         rec_label = FULL_NAMES_MAP[rec_type]
 
-        for key, value in list(attributes):
+        for index, (key, value) in enumerate(attributes):
             if key != PROV_TYPE:
                 continue
             if isinstance(value, prov.model.Literal):
@@ -316,7 +316,9 @@ class ProvXMLSerializer(Serializer):
                 and PROV_BASE_CLS[value] != value
                 and PROV_BASE_CLS[value] == rec_type
             ):
-                attributes.remove((key, value))
+                # remove exactly this pair (an xsd:anyURI value with the same
+                # URI compares equal to it and must stay)
+                del attributes[index]
                 rec_label = FULL_NAMES_MAP[value]
                 break
         return rec_label
